@@ -40,7 +40,7 @@ def c_spherical(c):
     c.goal("speed: r.q' = cos((1-t)*Omega)", eq(dot(r, qn), c.cos(Om - Om * t)))
     R2 = f(p.copy(), -q, ts)
     c.goal_eq('sign-invariant', R2[1], r)
-    c.observe('r', r)
+    # (no observed values: cos(t*Omega) is an abstract pair in the model, so numbers differ from CPython's)
 
 
 @contract('C12', 'slerp.lerp-branch', variants=[dict(copy='quaternion'), dict(copy='orientation')],
